@@ -21,6 +21,8 @@ RULE = ("random programs; non-trivial = >= 1 probe inside or after a scope that 
 ASSUMPTIONS = ["loop / for / if bodies are not scopes (documented: variables are global apart from attribute locals)"]
 
 NAMES = ["a", "b", "c"]
+# (the probe also reads two names that are only ever bound through the 'uni' family below)
+UNI = ["gr\u00f6\u00dfe", "gr"]
 
 
 class Prog:
@@ -339,6 +341,16 @@ def gen_case(rng):
             continue
         doc_f = p.document(block, later_first=False)
         doc_b = p.document(block, later_first=True)
+        if rng.random() < 0.25:
+            # the same program with names containing non-ASCII letters, one name being a prefix of the other
+            ren = {"a": UNI[0], "b": UNI[1]}
+
+            def rename(text):
+                text = re.sub(r"(?<=\s)(a|b)=", lambda m: ren[m.group(1)] + "=", text)
+                text = re.sub(r"\$\{(a|b)\}", lambda m: "${" + ren[m.group(1)] + "}", text)
+                return re.sub(r"\$(a|b)\b", lambda m: "$" + ren[m.group(1)], text)
+            doc_f, doc_b, exp = rename(doc_f), rename(doc_b), [rename(e) for e in exp]
+            pass      # (same family: the known findings of the general-fwd family apply to both spellings)
         return dict(fwd=doc_f.encode(), bwd=doc_b.encode(), expected=exp, shadow=p.shadow, uses_fwd=p.uses_fwd, family=family)
     raise RuntimeError("generator could not produce a program")
 
